@@ -123,6 +123,22 @@ def judge(case, out, args):
                                (((fr["src"], fr["sport"]) in ends and not srv) or ((fr["dst"], fr["dport"]) in ends and srv)))
                 if got != sent:
                     return "QUIC: %d bytes are exported as sent by the %s, which sent %d" % (len(got), "server" if srv else "client", len(sent))
+            # ... and datagram by datagram: what is exported under a capture time is what the input datagrams of that time carried
+            # (datagrams that share a microsecond are taken together, in capture order)
+            for srv in (False, True):
+                sent_at, got_at = collections.OrderedDict(), collections.OrderedDict()
+                for p in cn.packets:
+                    if p["isserver"] == srv:
+                        d = b"".join(x for k, x in cn.s.conn.datagrams[p["idx"]]["ordered"] if k == "stream" or meta)
+                        if d:
+                            sent_at[p["ts"]] = sent_at.get(p["ts"], b"") + d
+                for ts, fr in pkts:
+                    if fr["kind"] == "udp" and fr["payload"] and (((fr["src"], fr["sport"]) in ends and not srv) or ((fr["dst"], fr["dport"]) in ends and srv)):
+                        got_at[ts] = got_at.get(ts, b"") + bytes(fr["payload"])
+                if sent_at != got_at:
+                    bad = next((t for t in list(sent_at) + list(got_at) if sent_at.get(t) != got_at.get(t)), None)
+                    return "QUIC: under the capture time %s the %s's datagrams carried %d bytes, %d are exported with that time" % (
+                        bad, "server" if srv else "client", len(sent_at.get(bad, b"")), len(got_at.get(bad, b"")))
             for ts, fr in pkts:
                 if fr["kind"] == "udp" and ((fr["src"], fr["sport"]) in ends or (fr["dst"], fr["dport"]) in ends):
                     why = frame_ok(fr, cn, args)
@@ -191,6 +207,24 @@ def main():
                 case2.capture = capgen.to_pcapng(case2.packets)
                 hist["coarse-clock"] += 1
                 yield case2
+            if i % 3 == 2:
+                # ... and through a nanosecond clock: datagrams a fraction of a microsecond apart (bursts), the capture written with if_tsresol 9;
+                # the sub-microsecond parts stay within 0.2 us of a whole microsecond so that the microsecond written is the nearest one whatever the float rounding
+                cn = pool.quic_conn(rng, hist, idx=1, napp=rng.choice([5, 10]))
+                case3 = pool.build(rng, [cn], hist)
+                t_ns = min(p["ts"] for p in case3.packets) * 1000 + rng.randrange(1000)
+                ticks = []
+                for p in sorted(case3.packets, key=lambda q: q["ts"]):
+                    t_ns += rng.choice([rng.randrange(150, 950), rng.randrange(150, 950), rng.randrange(3000, 90000)])
+                    if 200 < t_ns % 1000 < 800:
+                        # float seconds near 1.7e9 are 238 ns apart: reader and writer together may move an instant by a quarter of a microsecond
+                        t_ns += 800 - t_ns % 1000 + rng.randrange(150)
+                    p["ts"] = (t_ns + 500) // 1000
+                    ticks.append((t_ns, p["frame"]))
+                from ref import synth
+                case3.capture = synth.pcapng(ticks, tsresol=9)
+                hist["nanosecond-clock"] += 1
+                yield case3
     for i, case in enumerate(all_cases()):
         args = option_sets[i % len(option_sets)]
         hist["options=%s" % " ".join(args)] += 1
@@ -216,7 +250,7 @@ def main():
     ck.cov["rule"] = ("captures of 1..4 interleaved TLS and QUIC connections between random MAC/IP/port endpoints (IPv4 and IPv6), timestamps with arbitrary microsecond parts; "
                       "every exported frame must be oriented sender -> receiver with the connection's MACs, IPs, IP version and client port (server port per -m), carry the time of "
                       "an input packet overlapping its record (TLS, without -a: exact overlap set; with -a: a packet of that direction) or of an input datagram of that direction "
-                      "(QUIC); the synthetic handshake carries the time of the first exported record; no exported packet may belong to no connection")
+                      "(QUIC: datagram by datagram, also for bursts a fraction of a microsecond apart captured with a nanosecond clock); the synthetic handshake carries the time of the first exported record; no exported packet may belong to no connection")
     ck.cov["dimension_histogram"] = dict(sorted(hist.items()))
     if disagreements:
         ck.broken.append({"kind": "correspondence", "count": len(disagreements), "first": [{k: v for k, v in d.items() if k != "capture"} for d in disagreements[:4]]})
